@@ -172,6 +172,8 @@ def opVecD (op : String) (x y : List Float) (s : Float) (m : Nat) : String :=
   | "Log2Norm" => vc (log2Norm x)
   | "Log" => vc (some (vlog x))
   | "Exp" => vc (some (vexp x))
+  | "Log2" => vc (some (vlog2 x))
+  | "Exp2" => vc (some (vexp2 x))
   | "LogSum" => sc (logSum x)
   | "Log2Sum" => sc (log2Sum x)
   | "Entropy" => sc (some (entropy x))
@@ -206,6 +208,8 @@ def opVecF (op : String) (x y : List Float32) (s : Float32) (m : Nat) : String :
   | "Log2Norm" => vc (log2Norm x)
   | "Log" => vc (some (vlog x))
   | "Exp" => vc (some (vexp x))
+  | "Log2" => vc (some (vlog2 x))
+  | "Exp2" => vc (some (vexp2 x))
   | "LogSum" => sc (logSum x)
   | "Log2Sum" => sc (log2Sum x)
   | "Entropy" => sc (some (entropy x))
@@ -216,7 +220,7 @@ def opVecF (op : String) (x y : List Float32) (s : Float32) (m : Nat) : String :
   | "Log2Validate" => stat (log2Validate x s)
   | _ => "bad-op"
 
-def opVecI (k : Nat) (op : String) (x y : List Int) (m : Nat) : String :=
+def opVecI (k : Nat) (op : String) (x y : List Int) (m : Nat) (c : Int) : String :=
   let sc (o : Option Int) : String := match o with | some r => s!"ok {r}" | none => "fault"
   match op with
   | "Sum" => sc (some (isum x))
@@ -229,6 +233,11 @@ def opVecI (k : Nat) (op : String) (x y : List Int) (m : Nat) : String :=
   | "SortIncreasing" => "ok " ++ hexOrDash (ibytes k (sortIncreasing x))
   | "SortDecreasing" => "ok " ++ hexOrDash (ibytes k (sortDecreasing x))
   | "Reverse" => "ok " ++ hexOrDash (ibytes k (reverse x))
+  | "Scale" => "ok " ++ hexOrDash (ibytes k (x.map (· * c)))
+  | "MatScale" => if m = 0 then "bad-op" else "ok " ++ hexOrDash (ibytes k (x.map (· * c)))
+  | "Increment" => "ok " ++ hexOrDash (ibytes k (x.map (· + c)))
+  | "Add" => "ok " ++ hexOrDash (ibytes k (List.zipWith (· + ·) x y))
+  | "AddScaled" => "ok " ++ hexOrDash (ibytes k (List.zipWith (fun a b => a + b * c) x y))
   | _ => "bad-op"
 
 def opVec (ws : List String) : String :=
@@ -247,9 +256,9 @@ def opVec (ws : List String) : String :=
              opVecD op (doubles xb) (doubles yb) (Float.ofBits (UInt64.ofNat sbits)) m
     | 'F' => if hasY && yb.length / 4 != xb.length / 4 then "bad-op" else
              opVecF op (floats xb) (floats yb) (Float32.ofBits (UInt32.ofNat sbits)) m
-    | 'I' => if hasY && yb.length / 4 != xb.length / 4 then "bad-op" else opVecI 4 op (ints 4 xb) (ints 4 yb) m
+    | 'I' => if hasY && yb.length / 4 != xb.length / 4 then "bad-op" else opVecI 4 op (ints 4 xb) (ints 4 yb) m ((argInt? ws "k").getD 1)
     | 'L' => if hasY && yb.length / 8 != xb.length / 8 then "bad-op" else
-             if op == "MatMax" || op == "Reverse" then "bad-op" else opVecI 8 op (ints 8 xb) (ints 8 yb) m
+             if op == "MatMax" || op == "MatScale" then "bad-op" else opVecI 8 op (ints 8 xb) (ints 8 yb) m ((argInt? ws "k").getD 1)
     | _ => "bad-op"
 
 def step (s : Unit) (line : String) : Unit × String :=
